@@ -453,6 +453,19 @@ def findEol(raw, eols):
                 return (-1, None)
     return (index, found)
 
+def pendingEol(raw, eols):
+    """
+    Returns number of bytes at the end of raw that may be the start of an eol
+    in eols that is not yet complete
+    """
+    size = 0
+    for eol in eols:
+        for n in range(len(eol) - 1, size, -1):
+            if raw.endswith(eol[:n]):
+                size = n
+                break
+    return size
+
 def parseLine(raw, eols=(CRLF, LF, CR ), kind="event line"):
     """
     Generator to parse  line from raw bytearray
@@ -470,7 +483,7 @@ def parseLine(raw, eols=(CRLF, LF, CR ), kind="event line"):
         index, eol = findEol(raw, eols)
 
         if index < 0:  # not found
-            if len(raw) > MAX_LINE_SIZE:
+            if len(raw) - pendingEol(raw, eols) > MAX_LINE_SIZE:
                 raise LineTooLong(kind)
             else:
                 (yield None)  # more data needed not done parsing header
@@ -499,7 +512,7 @@ def parseLeader(raw, eols=(CRLF, LF), kind="leader header line", headers=None):
         index, eol = findEol(raw, eols)
 
         if index < 0:  # not found
-            if len(raw) > MAX_LINE_SIZE:
+            if len(raw) - pendingEol(raw, eols) > MAX_LINE_SIZE:
                 raise LineTooLong(kind)
             else:
                 (yield None)  # more data needed not done parsing header
